@@ -72,7 +72,11 @@ fn drive_shared(mut it: Iter<'_, Tracked>, sel: &[Obs], script: &[Step]) -> R<()
                     lo += k + 1;
                 } else {
                     chk("nth() past the end", it.nth(k), None)?;
-                    return Ok(());
+                    // running out of elements consumes all of them: the iterator is exhausted from now on
+                    lo = hi;
+                    len_chk("iterator after nth() ran past the end", it.len(), it.size_hint(), 0)?;
+                    chk("next() after nth() ran past the end", it.clone().next(), None)?;
+                    chk("next_back() after nth() ran past the end", it.clone().next_back(), None)?;
                 }
             }
             Step::NthBack(k) => {
@@ -82,7 +86,10 @@ fn drive_shared(mut it: Iter<'_, Tracked>, sel: &[Obs], script: &[Step]) -> R<()
                     hi -= k + 1;
                 } else {
                     chk("nth_back() past the end", it.nth_back(k), None)?;
-                    return Ok(());
+                    hi = lo;
+                    len_chk("iterator after nth_back() ran past the front", it.len(), it.size_hint(), 0)?;
+                    chk("next() after nth_back() ran past the front", it.clone().next(), None)?;
+                    chk("next_back() after nth_back() ran past the front", it.clone().next_back(), None)?;
                 }
             }
             Step::Dbg => {
@@ -290,7 +297,8 @@ fn drive_mut(mut it: IterMut<'_, Tracked>, sel: &[Obs], script: &[Step], mut new
                     lo += k + 1;
                 } else {
                     chk("nth() past the end", g.as_deref(), None)?;
-                    return Ok(writes);
+                    lo = hi;
+                    len_chk("mutable iterator after nth() ran past the end", it.len(), it.size_hint(), 0)?;
                 }
             }
             Step::NthBack(k) => {
@@ -302,7 +310,8 @@ fn drive_mut(mut it: IterMut<'_, Tracked>, sel: &[Obs], script: &[Step], mut new
                     hi -= k + 1;
                 } else {
                     chk("nth_back() past the end", g.as_deref(), None)?;
-                    return Ok(writes);
+                    hi = lo;
+                    len_chk("mutable iterator after nth_back() ran past the front", it.len(), it.size_hint(), 0)?;
                 }
             }
             Step::Dbg => {
@@ -558,7 +567,8 @@ impl St {
                                     got.push(t);
                                 }
                                 r?;
-                                return Ok(());
+                                lo = hi;
+                                len_chk("into_iter after nth() ran past the end", it.len(), it.size_hint(), 0)?;
                             }
                         }
                         Step::NthBack(k) => {
@@ -577,7 +587,8 @@ impl St {
                                     got.push(t);
                                 }
                                 r?;
-                                return Ok(());
+                                hi = lo;
+                                len_chk("into_iter after nth_back() ran past the front", it.len(), it.size_hint(), 0)?;
                             }
                         }
                         Step::Dbg => {
